@@ -184,6 +184,9 @@ theorem C03_blocks_adjacent (off : Nat) (ts : List Tok) (h : Chain off ts) (f : 
   · intro u hu
     exact blocks_chain_bounds off ts h u (by rw [e]; simp [hu])
 
+/-! non-vacuity of the adjacency hypothesis: a two-line stream with adjacent spans -/
+example : Chain 3 [⟨.word, ['a'], 3⟩, ⟨.newline, ['\n'], 4⟩, ⟨.word, ['é'], 5⟩] := ⟨rfl, rfl, rfl, trivial⟩
+
 /-- instance for the stream `PullParser` splits: the first token of every block starts strictly
     before the end of the input and the last one ends inside it (the two `debug_assert!`s of
     `BlockParser::new`, with `off` the front-matter offset) -/
